@@ -21,6 +21,7 @@ well-formed value, a well-formed target without DynamicPseudoType, and a
 happens without it).
 -/
 import CtyModel.Lemmas.ConvertUnknown
+import CtyModel.Lemmas.ConvertTotal
 namespace CtyModel
 namespace C08
 open Convert Ty
@@ -242,6 +243,48 @@ theorem noPanic_false : ¬ NoPanic := by
     setLaws_simple (by decide) (by decide)
   rw [no_panic_counterexample.1] at this
   exact absurd this (by decide)
+
+/-- For a regular pair and a value without unknown parts (nulls and marks are
+allowed at any depth) `Convert` returns a value, an error, or runs out of model
+fuel — never a panic; for every environment satisfying the laws and every fuel.
+(Unknown parts go through the refinement builder, whose freedom from panics on the
+bounds it is handed here is not proved; the harness checks it on every run.) -/
+theorem no_panic_partial (E : Env) (hU : UnifyLaws E) (hS : SetLaws E) (fuel : Nat) (v : Value) (want : Ty)
+    (hp : RegularPair v want) (hk : Payload.whollyKnown v.v = true) :
+    (convert E fuel v want).isPanic = false := by
+  have h := (convert_NB hU hS fuel hp hk).1
+  cases hr : convert E fuel v want <;> simp [Res.isPanic]
+  exact absurd hr (h _)
+
+/-- … and neither does any conversion returned by `GetConversion` / `GetConversionUnsafe`. -/
+theorem no_panic_getConversion_partial (E : Env) (hU : UnifyLaws E) (hS : SetLaws E) (fuel : Nat)
+    (uns : Bool) (v : Value) (want : Ty) (p : Plan) (hp : RegularPair v want)
+    (hk : Payload.whollyKnown v.v = true) (hg : getConv E v.ty want uns = some p) :
+    (apply E fuel p v).isPanic = false := by
+  have h := (apply_NB hU hS fuel hp hk hg).1
+  cases hr : apply E fuel p v <;> simp [Res.isPanic]
+  exact absurd hr (h _)
+
+/-! ## A safe conversion never fails -/
+
+/-- A conversion offered by `GetConversion` (safe mode) to a placeholder-free target
+never reports an error and never panics on a value of the source type without
+unknown parts: the outcome is a value of the target type (or the model's fuel ran
+out).  Errors come only from conversions built in unsafe mode. -/
+theorem safe_total_partial (E : Env) (hU : UnifyLaws E) (hS : SetLaws E) (fuel : Nat) (v : Value) (want : Ty)
+    (p : Plan) (hp : RegularPair v want) (hk : Payload.whollyKnown v.v = true)
+    (hg : getConversion E v.ty want = some p) :
+    (∃ r, apply E fuel p v = .ok r ∧ r.ty = want.stripOpt) ∨ apply E fuel p v = .unmodelled := by
+  have h := apply_NB hU hS fuel hp hk hg
+  cases hr : apply E fuel p v with
+  | ok r => exact .inl ⟨r, rfl, apply_ty hU hp hg hr⟩
+  | err c => exact absurd (h.2 c hr) (by simp)
+  | panic w => exact absurd hr (h.1 w)
+  | unmodelled => exact .inr rfl
+
+/-- with enough fuel the sample conversion of the non-vacuity section does return a value -/
+example : (apply Env.simple 8 (.wrap (.list .string) (.collToList .string (.wrap .string .boolToStr)))
+    ⟨.list .bool, .seq [.b true, .null]⟩).isOk = true := by decide
 
 /-! ## Round trips through the inverse conversion -/
 
